@@ -139,6 +139,8 @@ def run(ck):
 def replay(rp):
     if 'warm_round' in rp.get('input', {}):
         return wk.warm_replay(rp['input'])
+    if 'copied_simulator' in rp.get('input', {}):
+        return wk.copied_replay(rp['input'], oracle)
     if 'dataset_selection' in rp.get('input', {}):
         k, how = wk.from_description(rp['input']), rp['input']['dataset_selection']
         try:
